@@ -99,13 +99,18 @@ def _validator_def(nm, v, prov, indent="    "):
     return [f"{indent}def {nm}(self, *args, **kwargs):", f"{indent}    return REC.validator({gid!r}, {nm!r}, kwargs)"]
 
 
+def _guard_by_obj(g):
+    return bool(g.get("by_obj")) and g["providers"] == ["sm"] and g["kind"] == "method" and not g.get("awrap")
+
+
 def transition_kwargs(spec, t):
     kw = []
-    conds = [repr(g["name"]) for g in t["guards"] if g["kind"] == "cond"]
-    unl = [repr(g["name"]) for g in t["guards"] if g["kind"] == "unless"]
+    gref = lambda g: g["name"] if _guard_by_obj(spec["guards"][g["name"]]) and not spec.get("style") else repr(g["name"])  # noqa: E731
+    conds = [gref(g) for g in t["guards"] if g["kind"] == "cond"]
+    unl = [gref(g) for g in t["guards"] if g["kind"] == "unless"]
     joinable = t.get("join_guards") and len(t["guards"]) >= 2 and len({g["name"] for g in t["guards"]}) == len(t["guards"]) and all(
         len(spec["guards"][g["name"]]["providers"]) == 1 and not spec["guards"][g["name"]].get("async")
-        and spec["guards"][g["name"]]["providers"][0] in spec["providers"] for g in t["guards"])
+        and spec["guards"][g["name"]]["providers"][0] in spec["providers"] and not spec["guards"][g["name"]].get("by_obj") for g in t["guards"])
     if joinable:
         sym = t["i"] % 2 == 1
         a_, o_, n_ = (" ^ ", " v ", "!") if sym else (" and ", " or ", "not ")
@@ -241,6 +246,10 @@ def render_canonical(spec, cls_suffix="", _providers_only=False, _uid=None):
     for cid, cb in spec["cbs"].items():
         if cb["provider"] == "sm" and cb["kind"] == "func":
             L += _cb_def(cid, cb)
+    # guards referenced by object (the function itself is passed as cond= / unless=)
+    for nm, g in spec["guards"].items():
+        if _guard_by_obj(g):
+            L += _guard_def(nm, g, "sm")
     # states
     for st in spec["states"]:
         kw = []
@@ -298,7 +307,7 @@ def render_canonical(spec, cls_suffix="", _providers_only=False, _uid=None):
         if cb["provider"] == "sm" and cb["kind"] == "method":
             L += _cb_def(cid, cb)
     for nm, g in spec["guards"].items():
-        if "sm" in g["providers"]:
+        if "sm" in g["providers"] and not _guard_by_obj(g):
             L += _guard_def(nm, g, "sm")
     for nm, v in spec["validators"].items():
         if "sm" in v["providers"]:
